@@ -25,6 +25,8 @@ import (
 
 // Options configures a world.
 type Options struct {
+	// PluginFaults: also intercept the plugin's usage write inside the resource manager (see plugin.go)
+	PluginFaults bool
 	Backend string // "etcd" (default) or "redis" (metadata store on miniredis; the cpumem plugin always uses the embedded etcd)
 	NCPU    int    // cores reported by every fake engine (default 8)
 	Mem     int64  // memory reported by every fake engine (default 64 GiB)
@@ -58,6 +60,8 @@ type World struct {
 	Redis *miniredis.Miniredis
 
 	old []*oldInstance
+
+	pluginFaults bool
 }
 
 type oldInstance struct {
@@ -101,7 +105,7 @@ func New(t *testing.T, o Options) *World {
 		t.Fatalf("cw: %v", err)
 	}
 	ctx, cancel := context.WithCancel(context.Background())
-	w := &World{T: t, Ctx: ctx, cancel: cancel, Dir: dir, Locks: &LockLog{}}
+	w := &World{T: t, Ctx: ctx, cancel: cancel, Dir: dir, Locks: &LockLog{}, pluginFaults: o.PluginFaults}
 	w.Cfg = types.Config{
 		LockTimeout:         20 * time.Second,
 		GlobalTimeout:       20 * time.Second,
@@ -156,6 +160,9 @@ func (w *World) boot() {
 	w.RawStore, w.RawRmgr, w.RawWAL = c.VerifStore(), c.VerifRmgr(), c.VerifWAL()
 	w.Store = &StoreW{Store: w.RawStore, ic: w.IC, lk: w.Locks}
 	w.Rmgr = &RmgrW{Manager: w.RawRmgr, ic: w.IC}
+	if w.pluginFaults {
+		w.wrapPlugins()
+	}
 	w.WAL = &WalW{WAL: w.RawWAL, ic: w.IC}
 	c.VerifSetStore(w.Store)
 	c.VerifSetRmgr(w.Rmgr)
